@@ -162,14 +162,17 @@ func (f *SubscriptionFieldFilter) SkipEvent(ctx *Context, data []byte) (bool, er
 				// Boolean: true -> JSON: "true"
 				// Number: 42 -> JSON: "42"
 				// Null: null -> JSON: "null"
+				// Compare against a local copy: expected must stay the raw event value for the
+				// remaining candidate values of the IN list.
+				expectedJSON := expected
 				if expectedDataType == jsonparser.String {
-					expected, err = json.Marshal(string(expected))
+					expectedJSON, err = json.Marshal(string(expected))
 					if err != nil {
 						return true, err
 					}
 				}
 
-				if bytes.Equal(expected, actualRawBytes) {
+				if bytes.Equal(expectedJSON, actualRawBytes) {
 					return false, nil
 				}
 
